@@ -105,14 +105,20 @@ func (s *atpServerSession) sendRuntimeMessage(msgID uint32, runID string, messag
 func (s *atpServerSession) handleClosure() []*ServerError {
 	// Wait for work done or context complete.
 	var errors []*ServerError
-closeLoop:
+	// Once stopped, no more messages are sent to the client, but the channel is still drained until
+	// it is closed: the read loop and the step and signal goroutines must never block on it.
+	stopped := false
+	ctxDone := s.ctx.Done()
 	for {
 		select {
 		case errorSent, wasError := <-s.workDone:
 			if !wasError {
-				break closeLoop
+				return errors
 			}
 			errors = append(errors, &errorSent)
+			if stopped {
+				continue
+			}
 			err := s.sendRuntimeMessage(
 				MessageTypeError,
 				errorSent.RunID,
@@ -128,25 +134,24 @@ closeLoop:
 			}
 			// If either the error report sending failed, or the error was server fatal, stop here.
 			if err != nil || errorSent.ServerFatal {
+				stopped = true
+				// Now close the pipe that it gets input from.
 				err = s.stdinCloser.Close()
 				if err != nil {
-					return append(errors, &ServerError{
+					errors = append(errors, &ServerError{
 						RunID:       errorSent.RunID,
 						Err:         fmt.Errorf("error closing stdin (%w) after workDone error (%v)", err, errorSent),
 						StepFatal:   true,
 						ServerFatal: true,
 					})
-				} else {
-					break closeLoop
 				}
 			}
-		case <-s.ctx.Done():
+		case <-ctxDone:
 			// Likely got sigterm. Just close. Ideally gracefully.
-			break closeLoop
+			stopped = true
+			ctxDone = nil
 		}
 	}
-	// Now close the pipe that it gets input from.
-	return errors
 }
 
 func (s *atpServerSession) runATPReadLoop() {
